@@ -43,6 +43,11 @@ func genIK(r *RNG, seed uint64, tier string) (*Scenario, *ExploreCfg) {
 		case x < 5: // spend most of the balance: a second execution would fail on its own
 			amt := funds/2 + 1 + r.Intn(funds/2)
 			base = Op{Kind: KPostings, Postings: []PostingSpec{{"u:1", "bank", fmt.Sprint(amt), "USD"}}}
+		case x < 6 && r.Chance(0.4):
+			// a postings request with several distinct amounts and assets (its translation into a script must be the
+			// same text every time, or the replay's hash differs from the stored one)
+			base = Op{Kind: KPostings, Postings: []PostingSpec{{"world", fmt.Sprintf("m:%d", gi), "3", "USD"}, {"world", fmt.Sprintf("m:%d", gi), "4", "EUR/2"},
+				{"world", fmt.Sprintf("n:%d", gi), "5", "USD"}, {"world", fmt.Sprintf("n:%d", gi), "6", "EUR/2"}, {"world", "bank", "7", "USD"}}}
 		case x < 6 && r.Bool():
 			// a script that sets transaction and account metadata itself (the request carries metadata too)
 			base = Op{Kind: KScript, Script: fmt.Sprintf("send [USD 3] (\n  source = @world\n  destination = @w:%d\n)\nset_tx_meta(\"category\", \"c%d\")\nset_account_meta(@w:%d, \"k\", \"v\")\n", gi, gi, gi)}
